@@ -205,14 +205,16 @@ func driveC10(c *h.Ctx) error {
 		"connection failures, followed by further calls; identifiers echoed by the scripted server are compared with the identifier each call sent; " +
 		"outcomes compared with the model's outcome set. (b) stress: 8 goroutines x 25 calls on one client, random timeouts (1us..2ms, already-cancelled, none), " +
 		"random server delays; only the property itself is checked. Non-trivial: scenario with a trigger, failure or Close; stress run with both successes and abandoned calls")
-	if m, _ := c.Replay["case"].(map[string]any); m != nil && (m["leg"] == "clone" || m["leg"] == "large-response") {
+	if m, _ := c.Replay["case"].(map[string]any); m != nil && (m["leg"] == "clone" || m["leg"] == "large-response" || m["leg"] == "signer") {
 		c10CloneLeg(c)
 		c10LargeResponse(c, "C10")
+		c10SignerLeg(c)
 		return ccDrive(c, "C10", nil, "cases_C10.v", nil)
 	}
 	if c.Replay == nil {
 		c10CloneLeg(c)
 		c10LargeResponse(c, "C10")
+		c10SignerLeg(c)
 	}
 	cases, replay, err := ccReplayCases(c)
 	if err != nil && c.Replay != nil {
